@@ -31,6 +31,7 @@ RULE = ('collections: every node of the history tree over the alphabet {add o_k,
         'unknown names, x += x, sequences: depth 3 / 4) for two classes, plus random histories of length <= 14 '
         'with wrong-typed and equally named objects; dictionaries: every ordering of every generated 1..4-entry '
         'dictionary; stages: all 16x16 pairs, all sequences of length <= 2 (3), random big/negative ints; '
+        'DatasetCollection: random add/remove/get histories with duplicate names and wrong types; '
         'configuration: every ordered pair of edits from the mutator list on two instances. A case is '
         'non-trivial when it performs at least one operation; distinct by its operation list')
 TRUSTED = [
@@ -1209,11 +1210,107 @@ def run_config(ctx):
                          f'component {part} of (result codes, instance trees, user trees, inst-inst sharing, inst-dict sharing) differs')
 
 
+# ============================================================== DatasetCollection
+DS_TABLE = {0: (0, 'CBase'), 1: (1, 'CBase'), 2: (2, 'CBase'), 3: (3, 'CBase'), 4: (1, 'CDerived'), 5: (2, 'CForeign')}
+
+
+def run_datasets(ctx):
+    from skyllh.core.dataset import Dataset, DatasetCollection
+    from skyllh.core.config import Config
+    rng = ctx.rng
+    cfg = Config()
+
+    class SubDataset(Dataset):
+        pass
+
+    class NotADataset:
+        def __init__(self, name):
+            self.name = name
+
+    def mk(k):
+        n, c = DS_TABLE[k]
+        if c == 'CForeign':
+            o = NotADataset(f'd{n}')
+        else:
+            o = (Dataset if c == 'CBase' else SubDataset)(
+                cfg=cfg, name=f'd{n}', exp_pathfilenames=None, mc_pathfilenames=None, livetime=1.0,
+                default_sub_path_fmt='x', version=1)
+        o.oid = k
+        return o
+
+    def gobj_ds(k):
+        n, c = DS_TABLE[k]
+        return f'(mkobj {k} {n} {c})'
+    cases = [[('add', (0,)), ('add', (1, 0)), ('get', 1), ('remove', 0), ('add', (0, 5, 2)), ('add', (4,)), ('get', 2)]]
+    for _ in range(ctx.budget(80, 800)):
+        ops = []
+        for _ in range(rng.randrange(1, 10)):
+            r = rng.random()
+            if r < 0.5:
+                ops.append(('add', tuple(rng.randrange(6) for _ in range(rng.choice([1, 1, 1, 2, 3])))))
+            elif r < 0.7:
+                ops.append(('remove', rng.randrange(4)))
+            else:
+                ops.append(('get', rng.randrange(4)))
+        cases.append(ops)
+    terms, impl = [], []
+    for ops in cases:
+        objs = {k: mk(k) for k in DS_TABLE}
+        c = DatasetCollection('c')
+        out, q = [], []
+        for i, o in enumerate(ops):
+            ctx.count('dataset_op:' + o[0])
+            try:
+                if o[0] == 'add':
+                    arg = [objs[k] for k in o[1]]
+                    if len(arg) == 1 and i % 2 == 0:
+                        c += arg[0]                    # a single dataset through +=
+                    else:
+                        c.add_datasets(tuple(arg) if i % 3 == 0 else arg)
+                    out.append(0)
+                elif o[0] == 'remove':
+                    c.remove_dataset(f'd{o[1]}')
+                    out.append(0)
+                else:
+                    got = c.get_dataset(f'd{o[1]}')
+                    out.append(got.oid)
+                    if got.name != f'd{o[1]}' or c[f'd{o[1]}'] is not got:
+                        ctx.violation('DatasetCollection.get_dataset', 'wrong-dataset', f'get_dataset(d{o[1]}) returned {got.name}',
+                                      case={'kind': 'dataset', 'ops': ops})
+            except Exception as ex:
+                out.append(-errcode(ex))
+            if any(d.name != k for k, d in c._datasets.items()) or c.dataset_names != sorted(c._datasets.keys()):
+                ctx.violation('DatasetCollection', 'key-differs-from-dataset-name', f'after {ops[:i + 1]}',
+                              case={'kind': 'dataset', 'ops': ops},
+                              predicate='every dataset is stored under its own name')
+            if o[0] == 'add':
+                q.append('DsAdd [' + '; '.join(gobj_ds(k) for k in o[1]) + ']')
+            elif o[0] == 'remove':
+                q.append(f'DsRemove {o[1]}')
+            else:
+                q.append(f'DsGet {o[1]}')
+        out += [-7] + [int(k[1:]) for k in c._datasets.keys()] + [-7] + [d.oid for d in c._datasets.values()]
+        impl.append(out)
+        terms.append('ds_trace [' + '; '.join(q) + ']')
+        ctx.case({'dataset': ops})
+    if not ctx.model_ok:
+        return
+    try:
+        vals = common.coq_eval('c20d', IMPORTS, terms)
+    except RuntimeError as ex:
+        ctx.broken.append({'kind': 'model-eval', 'error': str(ex)[:1500]})
+        return
+    for ops, a, b in zip(cases, impl, vals):
+        ctx.corr_cases += 1
+        if list(b) != a:
+            ctx.disagree('DatasetCollection', {'kind': 'dataset', 'ops': ops}, a, list(b))
+
+
 # ============================================================== driver
 def run(ctx):
     import time
-    for name, part in (('stages', run_stages), ('hash', run_hash), ('collections', run_collections),
-                       ('config', run_config)):
+    for name, part in (('stages', run_stages), ('hash', run_hash), ('datasets', run_datasets),
+                       ('collections', run_collections), ('config', run_config)):
         t = time.time()
         part(ctx)
         ctx.notes.append(f'{name}: {time.time() - t:.1f}s (started {t - ctx.t0:.1f}s after the check began)')
@@ -1261,5 +1358,7 @@ def replay(ctx, rp):
         return run_stages(ctx)
     if kind == 'cfg':
         return run_config(ctx)
+    if kind == 'dataset':
+        return run_datasets(ctx)
     ctx.notes.append('replay: no single input in the file (broken obligation); re-running the full check')
     run(ctx)
